@@ -69,7 +69,7 @@ _BUILTINS = {"len": len, "chr": chr, "ord": ord, "bytes": bytes, "bytearray": by
              "frozenset": frozenset, "set": set, "tuple": tuple, "list": list, "dict": dict, "str": str, "int": int,
              "min": min, "max": max, "sorted": sorted, "abs": abs, "bool": bool, "enumerate": enumerate, "zip": zip,
              "reversed": reversed, "divmod": divmod, "hex": hex, "isinstance": isinstance, "repr": repr, "sum": sum,
-             "any": any, "all": all, "float": float}
+             "any": any, "all": all, "float": float, "iter": iter, "next": next}
 _TYPE_NAMES = {"bytes": bytes, "str": str, "int": int, "list": list, "tuple": tuple, "float": float, "bytearray": bytearray,
                "dict": dict, "set": set}
 _PURE_METHODS = {"startswith", "endswith", "replace", "strip", "lstrip", "rstrip", "find", "rfind", "index", "count", "join",
@@ -460,11 +460,16 @@ def eval_block(stmts: Sequence[ast.stmt], env: Dict[str, object], sink: Callable
         elif isinstance(st, ast.Delete) and all(src(t) in ignore for t in st.targets):
             continue
         elif isinstance(st, ast.For):
-            items = list(_pe(st.iter, env, funcs))
-            if len(items) > (1 << 20):
-                raise AnalysisError("block evaluation: loop too long")
+            try:
+                items = iter(_pe(st.iter, env, funcs))     # lazily: the body may advance the same iterator
+            except TypeError as e:
+                raise BlockRaised(f"not iterable: {src(st.iter)[:60]}", e)
             broke = False
+            n_iter = 0
             for it in items:
+                n_iter += 1
+                if n_iter > (1 << 20):
+                    raise AnalysisError("block evaluation: loop too long")
                 _bind_or_err(st.target, it, env)
                 eval_block(st.body, env, sink, funcs, record, ignore, res)
                 if res.flow == "continue":
@@ -553,8 +558,7 @@ def interp(func: ast.AST, funcs=None, env0: Optional[Dict[str, object]] = None) 
     (positional parameters only).  The function body is interpreted from its AST; nothing is imported."""
     params = [a.arg for a in func.args.args]
     defaults = func.args.defaults
-    is_generator = any(isinstance(n, (ast.Yield, ast.YieldFrom)) for n in walk_local(func) if n is not func) and \
-        any(isinstance(n, ast.Yield) for st in func.body for n in walk_local(st))
+    is_generator = any(isinstance(n, (ast.Yield, ast.YieldFrom)) for n in walk_local(func))
 
     def _interp(*args):
         env = dict(env0 or {})
